@@ -28,6 +28,7 @@ import (
 	"crypto/subtle"
 	"encoding/hex"
 	"encoding/json"
+	"errors"
 	"fmt"
 	"net/http"
 	"net/url"
@@ -114,6 +115,50 @@ type BackendServerRoomRequest struct {
 	ReceivedTime int64 `json:"received,omitempty"`
 }
 
+func (r *BackendServerRoomRequest) CheckValid() error {
+	switch r.Type {
+	case "invite":
+		if r.Invite == nil {
+			return errors.New("invite missing")
+		}
+	case "disinvite":
+		if r.Disinvite == nil {
+			return errors.New("disinvite missing")
+		}
+	case "update":
+		if r.Update == nil {
+			return errors.New("update missing")
+		}
+	case "delete":
+		if r.Delete == nil {
+			return errors.New("delete missing")
+		}
+	case "incall":
+		if r.InCall == nil {
+			return errors.New("incall missing")
+		}
+	case "participants":
+		if r.Participants == nil {
+			return errors.New("participants missing")
+		}
+	case "message":
+		if r.Message == nil {
+			return errors.New("message missing")
+		}
+	case "switchto":
+		if r.SwitchTo == nil {
+			return errors.New("switchto missing")
+		} else if err := r.SwitchTo.CheckValid(); err != nil {
+			return err
+		}
+	case "dialout":
+		if r.Dialout == nil {
+			return errors.New("dialout missing")
+		}
+	}
+	return nil
+}
+
 type BackendRoomInviteRequest struct {
 	UserIds []string `json:"userids,omitempty"`
 	// TODO(jojo): We should get rid of "AllUserIds" and find a better way to
@@ -174,6 +219,24 @@ type BackendRoomSwitchToMessageRequest struct {
 	// Internal properties
 	SessionsList BackendRoomSwitchToSessionsList `json:"sessionslist,omitempty"`
 	SessionsMap  BackendRoomSwitchToSessionsMap  `json:"sessionsmap,omitempty"`
+}
+
+func (r *BackendRoomSwitchToMessageRequest) CheckValid() error {
+	if len(r.Sessions) > 0 {
+		// We support both a list of sessions or a map with additional details per session.
+		if r.Sessions[0] == '[' {
+			var sessionsList BackendRoomSwitchToSessionsList
+			if err := json.Unmarshal(r.Sessions, &sessionsList); err != nil {
+				return fmt.Errorf("invalid sessions list: %w", err)
+			}
+		} else {
+			var sessionsMap BackendRoomSwitchToSessionsMap
+			if err := json.Unmarshal(r.Sessions, &sessionsMap); err != nil {
+				return fmt.Errorf("invalid sessions map: %w", err)
+			}
+		}
+	}
+	return nil
 }
 
 type BackendRoomDialoutRequest struct {
